@@ -467,6 +467,19 @@ pub fn run(tier: &str, seed: u64, dir: &str) {
                 sink.case(&op, &eval(&op), "dlchannel", true);
             }
         }
+        // 5b. DlChannelReq after an earlier DlChannelReq for the same channel: repeated, changed, reset
+        if !is_fixed(region) {
+            let own = default_ch0(region);
+            for idx in 0..3u8 {
+                for (f1, f2) in [(lo + 700_000, lo + 700_000), (lo + 700_000, lo + 300_000), (lo + 700_000, own), (own, lo + 700_000), (own, own)] {
+                    for in_fopts in [false, true] {
+                        let pre = dl_channel_req(idx, f1);
+                        let op = single_cmd_history(region, rng.next() & 0xffff, &dl_channel_req(idx, f2), in_fopts, Some(&pre));
+                        sink.case(&op, &eval(&op), "dlchannel-after-dlchannel", true);
+                    }
+                }
+            }
+        }
         // 6. DevStatusReq with every SNR
         for snr in -128..=127i32 {
             if !thorough && snr % 9 != 0 && !(-34..=-30).contains(&snr) && !(29..=33).contains(&snr) {
